@@ -1243,6 +1243,10 @@ func (m *Nitro) LoadFromDisk(dir string, concurr int, callb ItemCallback) (*Snap
 
 				for shard := range wchan {
 					r := readers[shard]
+					// Read and verify the whole delta shard before any of its items is
+					// handed to the (user supplied) comparator: a damaged item must be
+					// rejected by the checksum, not interpreted
+					var items []*Item
 				loop:
 					for {
 						itm, err := r.ReadItem()
@@ -1254,8 +1258,23 @@ func (m *Nitro) LoadFromDisk(dir string, concurr int, callb ItemCallback) (*Snap
 						if itm == nil {
 							break loop
 						}
+						items = append(items, itm)
+					}
 
-						w := writers[id]
+					if errors[shard] == nil && (hasDeltaChecksums || deltaChecksums[shard] != 0) &&
+						deltaChecksums[shard] != r.Checksum() {
+						errors[shard] = ErrCorruptSnapshot
+					}
+
+					w := writers[id]
+					if errors[shard] != nil {
+						for _, itm := range items {
+							w.freeItem(itm)
+						}
+						continue
+					}
+
+					for _, itm := range items {
 						if n, success := w.store.Insert2(unsafe.Pointer(itm),
 							w.insCmp, w.existCmp, w.buf, w.rand.Float32, &w.slSts1); success {
 
